@@ -101,6 +101,7 @@ def payload_text(breakout, filler, n):
 # model_tags: free text is also copied into struct tags when asked for (--struct-tags description / example)
 TARGETS = {"server": ["generate", "server", "--name", "verif"], "client": ["generate", "client", "--name", "verif"],
            "cli": ["generate", "cli", "--name", "verif"],
+           "server_expand": ["generate", "server", "--name", "verifx", "--server-package", "restapix", "--with-expand"],
            "model_tags": ["generate", "model", "--model-package", "tagged", "--struct-tags", "json", "--struct-tags", "description", "--struct-tags", "example", "--struct-tags", "yaml"]}
 
 
